@@ -116,7 +116,17 @@ func applyJSONPatches(jsonPatches jsonpatch.Patch, docBytes []byte) (result []by
 		}
 	}()
 
-	return jsonPatches.Apply(docBytes)
+	// one operation at a time: the library's copy shares the copied node with its source, so a later
+	// operation of the same list could build a cyclic document through the alias (and marshalling a
+	// cyclic document overflows the stack, which cannot be recovered from)
+	for _, operation := range jsonPatches {
+		docBytes, err = jsonpatch.Patch{operation}.Apply(docBytes)
+		if err != nil {
+			return nil, err
+		}
+	}
+
+	return docBytes, nil
 }
 
 func applyRecover(replaceDoc interface{}) (document.Document, error) {
